@@ -450,7 +450,9 @@ PROPS["C18"] = {
              "big-annotations unit: one annotation at spec or device level whose value is a repeated unit - 'a', NUL, a two-byte rune, "
              "an invalid byte, a truncated three-byte rune - with unit counts that put the total one below / at / one and two above the "
              "256 KiB limit, counted as given and counted as written (an invalid byte is written as three bytes); whatever WriteSpec "
-             "accepts must satisfy every clause, what it refuses is counted. Non-trivial iff the Spec has annotations, an integer extreme, or a string outside [A-Za-z0-9_./=-]*; "
+             "accepts must satisfy every clause, what it refuses is counted. concurrent unit (race build): 2..6 goroutines validate their own "
+             "library-valid Spec with the one builtin schema object at the same time - Validate(spec), ReadSpec with the schema installed, "
+             "ValidateFile - 5..30 times each; what passes alone must pass then. Non-trivial iff the Spec has annotations, an integer extreme, or a string outside [A-Za-z0-9_./=-]*; "
              "distinct = distinct Specs."),
     "assumptions": ["'library-valid' is what the shared generator emits (checked per case by the precondition)", "the Spec validator is process-global: one case at a time per process, reset after each case"],
     "manifest": {
@@ -464,6 +466,7 @@ PROPS["C18"] = {
         {"name": "regress", "mode": "plain", "run": "TestC18Regress"},
         {"name": "rapid", "mode": "rapid", "run": "TestC18Rapid", "checks": {"quick": 16000, "thorough": 320000}},
         {"name": "big-annotations", "mode": "plain", "run": "TestC18BigAnnotations"},
+        {"name": "concurrent", "mode": "rapid", "run": "TestC18Concurrent", "race": True, "shards": 4, "checks": {"quick": 160, "thorough": 4000}},
     ],
 }
 
